@@ -108,6 +108,9 @@ def all_configs():
         for p1 in EOS:
             cfgs.append(dict(integrator="eos", phi0=p0, phi1=p1, n=2, safe_mode=1))
     cfgs.append(dict(integrator="eos", phi0="lf4", phi1="lf", n=4, safe_mode=0))
+    for p0 in EOS:          # unsynchronised mode: the closing drift of a step is merged with the opening drift of the next (dtfac)
+        for p1 in ("lf", "lf4", "pmlf4"):
+            cfgs.append(dict(integrator="eos", phi0=p0, phi1=p1, n=2, safe_mode=0))
     cfgs.append(dict(integrator="leapfrog"))
     for order in (2, 4, 6, 8, 10):
         cfgs.append(dict(integrator="janus", order=order))
@@ -169,6 +172,7 @@ def apply_cfg(sim, cf):
         w.corrector2 = cf["corrector2"]
         w.safe_mode = cf["safe_mode"]
     elif it == "saba":
+        sim.ri_whfast.coordinates = "jacobi"      # SABA requires Jacobi coordinates (it raises otherwise)
         sim.ri_saba.type = cf["type"]
         sim.ri_saba.safe_mode = cf["safe_mode"]
     elif it == "eos":
@@ -465,7 +469,9 @@ def run(c):
                 continue
             if it == "saba" and cf["safe_mode"] == 0 and cf["type"] not in ("1", "cm2", "10,6,4"):
                 continue
-            if it == "eos" and not (cf["phi0"] == cf["phi1"] or cf["phi1"] == "lf" or cf["phi0"] == "lf" or cf["n"] != 2):
+            if it == "eos" and cf["safe_mode"] == 1 and not (cf["phi0"] == cf["phi1"] or cf["phi1"] == "lf" or cf["phi0"] == "lf" or cf["n"] != 2):
+                continue
+            if it == "eos" and cf["safe_mode"] == 0 and cf["n"] == 2 and cf["phi1"] != "lf":
                 continue
             sel.append(cf)
         cfgs = sel
@@ -499,7 +505,12 @@ def run(c):
                 try:
                     for ch in range(nchunks):
                         k = total // nchunks + (rng.randint(0, 3) if ch < nchunks - 1 else 0)
-                        sim.steps(k)
+                        if ch == 2 and cf["integrator"] in FIXED_SYMPLECTIC:
+                            # split integrate() calls (no exact finish time: steps stay unsynchronised across the calls)
+                            sim.integrate(sim.t + (k // 2) * sim.dt * (1 + 1e-9), exact_finish_time=0)
+                            sim.integrate(sim.t + (k - k // 2) * sim.dt * (1 + 1e-9), exact_finish_time=0)
+                        else:
+                            sim.steps(k)
                         done += k
                         if ch % 2 == 0:
                             sim.synchronize()      # interleaved synchronisation (a no-op for safe_mode=1)
@@ -557,6 +568,88 @@ def run(c):
             if not (E1 <= dE and E2 <= dE):
                 viol.append(("E:" + tag, "relative energy error of %s outside its class: %.3g (dt), %.3g (dt/2), bound %.1g" % (tag, E1, E2, dE), rep))
     c.cov["integrator_runs"] = ran
+
+    # ======================================================================= search: integrator switches on ONE simulation
+    # every ordered pair of integrators, a few steps each, with and without reset_integrator(); invariants measured from the
+    # moment of the switch (state left behind by the first integrator, e.g. gravity_ignore_terms, must not leak into the second)
+    SW = [dict(integrator="whfast", coordinates="jacobi", kernel="default", corrector=0, corrector2=0, safe_mode=1),
+          dict(integrator="whfast", coordinates="democraticheliocentric", kernel="default", corrector=0, corrector2=0, safe_mode=0),
+          dict(integrator="whfast", coordinates="whds", kernel="default", corrector=0, corrector2=0, safe_mode=1),
+          dict(integrator="saba", type="10,6,4", safe_mode=1),
+          dict(integrator="eos", phi0="lf4", phi1="lf", n=2, safe_mode=1),
+          dict(integrator="leapfrog"), dict(integrator="janus", order=6),
+          dict(integrator="mercurius", L="mercury", safe_mode=1), dict(integrator="trace", peri_mode=1),
+          dict(integrator="ias15"), dict(integrator="bs")]
+    sw_runs = 0
+    rng = c.rng.fork()
+    m0, bodies, G = gen_system(rng, 0)
+    boost = [rng.normal() for _ in range(3)] + [0.3 * rng.normal() for _ in range(3)]
+    Pin = 2 * math.pi * math.sqrt(bodies[0][1] ** 3 / (G * m0))
+    dts = Pin / 40
+    pairs_sw = [(a, b) for a in range(len(SW)) for b in range(len(SW)) if a != b]
+    if not c.thorough:      # quick: every pair once, alternating the reset flag; thorough: both
+        pairs_sw = [(a, b, (a + b) % 2) for a, b in pairs_sw]
+    else:
+        pairs_sw = [(a, b, r_) for a, b in pairs_sw for r_ in (0, 1)]
+    for a, b, doreset in pairs_sw:
+        cfa, cfb = SW[a], SW[b]
+        try:
+            sim = build_sim(rebound, m0, bodies, G, boost, cfa, dts)
+            sim.steps(4)
+            sim.synchronize()
+            if doreset:
+                sim.reset_integrator()
+            apply_cfg(sim, cfb)
+            if cfb["integrator"] == "janus":
+                sim.ri_janus.scale_pos = 1e-15 * bodies[0][1]
+                sim.ri_janus.scale_vel = 1e-15 * math.sqrt(G * m0 / bodies[0][1])
+            if cfb["integrator"] not in ("mercurius", "trace") and sim.gravity in ("mercurius", "trace"):
+                sim.gravity = "basic"
+            if not doreset and cfb["integrator"] == "whfast" and cfb.get("safe_mode") == 0:
+                # documented duty of the user in unsafe mode after changing the setup by hand
+                sim.ri_whfast.recalculate_coordinates_this_timestep = 1
+            sim.dt = dts
+            i0 = invariants(raw(sim), G)
+            t0 = sim.t
+            sim.steps(25)
+            sim.synchronize()
+            iv = invariants(raw(sim), G)
+        except Exception as ex:
+            viol.append(("switch:crash:%s->%s" % (cfa["integrator"], cfb["integrator"]), "switching %s -> %s raised %r" % (cfg_key(cfa), cfg_key(cfb), ex), dict(a=cfa, b=cfb, reset=doreset)))
+            continue
+        sw_runs += 1
+        tt = sim.t - t0
+        dP = norm([x_ - y_ for x_, y_ in zip(iv["P"], i0["P"])]) / i0["Pscale"]
+        dL = norm([x_ - y_ for x_, y_ in zip(iv["L"], i0["L"])]) / i0["Lscale"]
+        Rs = math.fsum(abs(p[0]) * norm(p[1:4]) for p in raw(sim)) + i0["Pscale"] * abs(tt)
+        dR = norm([x_ - y_ - pp * tt for x_, y_, pp in zip(iv["R"], i0["R"], i0["P"])]) / Rs
+        dE = abs(iv["E"] - i0["E"]) / i0["Escale"]
+        bP, bL, bR, bE = thresholds(cfb)
+        tag = "%s->%s%s" % (cfg_key(cfa), cfg_key(cfb), " (reset_integrator)" if doreset else "")
+        c.count(("switch", a, b, doreset))
+        for nm_, v_ in (("dE", dE), ("dP", dP), ("dL", dL), ("dCOM", dR)):
+            worst["switch:->%s:%s" % (cfb["integrator"], nm_)] = max(worst.get("switch:->%s:%s" % (cfb["integrator"], nm_), 0.0), v_)
+        rep = dict(first=cfa, second=cfb, reset=doreset, m0=m0, bodies=bodies, G=G, boost=boost, dt=dts, dE=dE, dP=dP, dL=dL, dCOM=dR,
+                   gravity_ignore_terms_after=int(sim.gravity_ignore))
+        kk = "%s->%s" % (cfa["integrator"] + (":" + cfa["coordinates"] if "coordinates" in cfa else ""), cfb["integrator"] + (":" + cfb["coordinates"] if "coordinates" in cfb else ""))
+        known = None
+        if not doreset and cfa["integrator"] == "bs" and cfb["integrator"] != "bs":
+            known = "FC04c:bs-nbody-ode-survives-switch"
+        elif not doreset and cfb["integrator"] == "bs" and cfa["integrator"] in ("whfast", "saba", "eos") and int(sim.gravity_ignore) != 0:
+            known = "FC04d:bs-keeps-gravity_ignore_terms"
+        if known and (dE > bE or dP > bP or dL > bL or dR > bR):
+            viol.append((known, "after switching integrators (%s): dE=%.3g dP=%.3g dL=%.3g dCOM=%.3g (gravity_ignore_terms=%d)" % (tag, dE, dP, dL, dR, int(sim.gravity_ignore)), rep))
+            continue
+        if dE > bE:
+            viol.append(("switch:E:" + kk, "after switching integrators (%s) the relative energy error over 25 steps is %.3g (class bound %.1g)" % (tag, dE, bE), rep))
+        if dP > bP:
+            viol.append(("switch:P:" + kk, "after switching integrators (%s) the momentum changes by %.3g" % (tag, dP), rep))
+        if dL > bL:
+            viol.append(("switch:L:" + kk, "after switching integrators (%s) the angular momentum changes by %.3g" % (tag, dL), rep))
+        if dR > bR:
+            viol.append(("switch:COM:" + kk, "after switching integrators (%s) the centre of mass leaves uniform motion by %.3g" % (tag, dR), rep))
+    c.cov["integrator_switch_runs"] = sw_runs
+    hist["switch"] = sw_runs
 
     # ======================================================================= search: WHFast primitive by primitive
     # (what c04_wh_* / c04_dh_* state, asserted on the exported primitives of the real code, one at a time)
@@ -647,7 +740,9 @@ def run(c):
         else:
             e1, f1, mpl, eta, dtp = rng.uniform(0.8, 0.93), rng.uniform(1.5, 3.0), 10 ** (-rng.uniform(3, 4.5)), rng.choice([0.1, 0.2, 0.5]), rng.uniform(0.015, 0.03)
         resm = {}
-        for pm in (0, 1, 2):
+        for pm in (0, 1, 2, 11, 12):      # 11, 12: FULL_BS / FULL_IAS15 on a simulation that was stepped with WHFast before
+            pre_wh = pm >= 10
+            pm = pm % 10
             sim = rebound.Simulation()
             sim.add(m=1.)
             sim.add(m=mpl, a=1.0, e=e1, inc=0.1, omega=0.3, f=f1)
@@ -655,6 +750,11 @@ def run(c):
             sim.move_to_com()
             for i in range(sim.N):
                 sim.particles[i].vx += 0.01; sim.particles[i].vy -= 0.02; sim.particles[i].vz += 0.005
+            if pre_wh:
+                sim.integrator = "whfast"
+                sim.dt = dtp
+                sim.steps(3)
+                sim.synchronize()
             sim.integrator = "trace"
             sim.dt = dtp
             sim.ri_trace.peri_mode = pm
@@ -683,6 +783,14 @@ def run(c):
                             sig = rejected_step_signature(dRv, [pp / i0["M"] for pp in i0["P"]], dtp) if r_ > 1e-9 else None
             except Exception as ex:
                 viol.append(("crash:trace-peri:%s" % PERI[pm], "TRACE peri_mode=%s raised %r" % (PERI[pm], ex), dict(e=e1, f=f1, m=mpl, eta=eta, dt=dtp)))
+                continue
+            if pre_wh:
+                c.count(("trace-peri-after-whfast", pm, case), nontrivial=nperi > 0)
+                worst["trace-peri-after-whfast:%s:dE" % PERI[pm]] = max(worst.get("trace-peri-after-whfast:%s:dE" % PERI[pm], 0.0), wE)
+                if wE > 1e-4 or wL > 1e-9 or wP > 1e-10:
+                    key = "FC04e:trace-keeps-gravity_ignore_terms" if int(sim.gravity_ignore) != 0 else "switch:whfast->trace:%s" % PERI[pm]
+                    viol.append((key, "TRACE peri_mode=%s after 3 WHFast steps on the same simulation: dE=%.3g dL=%.3g dP=%.3g over %d steps (%d pericentre-flagged), gravity_ignore_terms=%d"
+                                 % (PERI[pm], wE, wL, wP, nst, nperi, int(sim.gravity_ignore)), dict(peri_mode=PERI[pm], e=e1, f=f1, m_planet=mpl, peri_crit_eta=eta, dt=dtp, dE=wE)))
                 continue
             resm[pm] = (nperi, wE, wL, wP, wR)
             peri_hits[PERI[pm]] = peri_hits.get(PERI[pm], 0) + nperi
